@@ -5,7 +5,7 @@ import os
 from ..ir import Program
 from ..derive import derive, labels_of, Summaries
 from ..effects import external_effect
-from .. import frontend, api
+from .. import frontend, api, scan
 
 MIN_FUNCS = 39
 
@@ -49,6 +49,29 @@ def analyse(ck, prog, funcs, report):
     return n_ops, rows
 
 
+MIN_SCAN_LOOPS = 30
+
+
+def scan_rule(ck, funcs, report):
+    """clause: a budgeted scan gives up for lack of budget only after it has examined all `budget` elements (sa/scan.py)"""
+    rows, covered, exits, skipped = {}, 0, 0, {}
+    for fn in funcs:
+        S = scan.Scan(fn)
+        for h in fn.loops:
+            r = S.loop(h)
+            if not r.get("covered"):
+                skipped["%s:%s" % (fn.name, h)] = r["kind"][:80]
+                continue
+            covered += 1
+            exits += r["budget_exits"]
+            rows["%s:%s" % (api.base_name(fn.name), h)] = dict(counters=r["counters"], cursors=r["cursors"], budget_exits=r["budget_exits"], iteration_paths=r["iteration_paths"])
+            for f in r["findings"]:
+                report("C10:scan-gives-up-early:%s:%s:%s" % (api.base_name(fn.name), f["cursor"].lstrip("%"), f["counter"].lstrip("%")), "S-budget-spent-before-giving-up",
+                       "%s:%s" % (fn.file, fn.blocks[h]["insts"][-1].get("line") or fn.line),
+                       "%s: %s -- within the first `budget` elements the answer can differ from the standard function's" % (api.base_name(fn.name), f["text"]))
+    return dict(loops_covered=covered, budget_exits=exits, loops=rows, not_covered=skipped)
+
+
 def run(ck):
     mods, info = frontend.load_modules()
     prog = Program(mods)
@@ -58,12 +81,16 @@ def run(ck):
     n_ops, rows = analyse(ck, prog, funcs, ck.report)
     for n in list(rows)[:8]:
         ck.sample(dict(function=n, operands_checked=rows[n], verdict="no write through any operand" if not any(n in r["key"] for r in ck.reports) else "modified"))
+    sc = scan_rule(ck, funcs, ck.report)
+    if sc["loops_covered"] < MIN_SCAN_LOOPS:
+        ck.fail_broken("scan completeness: only %d budgeted scan loops recognised (< %d)" % (sc["loops_covered"], MIN_SCAN_LOOPS))
     fx = selftest(ck)
-    cov = dict(explanation="For each of the %d exported query functions anchored by the property, every operand parameter (%d pointers named dest/src/str/key/base) "
+    cov = dict(scan_completeness=sc, explanation="For each of the %d exported query functions anchored by the property, every operand parameter (%d pointers named dest/src/str/key/base) "
                "is followed through getelementptr/casts/phi/select/integer round trips and through every library callee (inter-procedural write summaries, fixpoint over "
                "the call graph); a store or a writing effect on a derived pointer is a violation. Passing the pointer to the registered constraint handler or to the caller's "
-               "comparator, and storing an interior pointer into an out-parameter, are not writes. Result equality with the libc counterparts is not decided."
-               % (len(funcs), n_ops),
+               "comparator, and storing an interior pointer into an out-parameter, are not writes. Scan completeness: in %d budgeted scan loops (a counter from a length argument decreasing by a constant, a cursor advancing by a constant) every exit "
+               "taken for lack of budget (%d exit paths whose guards pin the counter) happens only after all `budget` elements were examined. Beyond that, result equality with the libc counterparts is not decided."
+               % (len(funcs), n_ops, sc["loops_covered"], sc["budget_exits"]),
                obligations=n_ops, discharged=n_ops - len({(r["key"].split(":")[2], r["key"].split(":")[3]) for r in ck.reports}),
                functions=len(funcs), operands=n_ops, fixtures=fx, frontend=info, exhaustive=True,
                summary="%d query functions, %d operand pointers, none written" % (len(funcs), n_ops))
@@ -80,4 +107,11 @@ def selftest(ck):
     want = ["C10:operand-modified:q_bad_clear:dest:helper_clear", "C10:operand-modified:q_bad_store:dest:store", "C10:operand-modified:q_bad_tok:src:strtok_r_like"]
     if sorted(got) != want:
         ck.fail_broken("fixture c10.c: got %s, expected %s" % (sorted(got), want))
-    return dict(fired=sorted(got))
+    out = dict(fired=sorted(got))
+    got2 = []
+    r = scan_rule(B(), [prog.funcs[n] for n in ("sc_good_while", "sc_predecrement", "sc_good_dowhile", "sc_stops_one_short")], lambda key, *a: got2.append(key))
+    want2 = ["C10:scan-gives-up-early:sc_predecrement:scan2.0:smax.0", "C10:scan-gives-up-early:sc_stops_one_short:dest.addr.0:dmax.addr.0"]
+    out["scan"] = dict(fired=sorted(got2), loops_covered=r["loops_covered"])
+    if sorted(got2) != want2 or r["loops_covered"] != 6:
+        ck.fail_broken("fixture c10.c: scan completeness got %s (%d loops), expected %s (6 loops)" % (sorted(got2), r["loops_covered"], want2))
+    return out
